@@ -252,90 +252,6 @@ func ruleR14_3(p *Program, r *Report) {
 	}
 }
 
-// errorCarriers: values known to hold the error of call c at later points: its def-use closure, plus
-// loads of a field it was stored to (store->load forwarding), plus - for a call to an own op method -
-// loads of the sticky field after the call.
-func (p *Program) errorCarriers(fn *ssa.Function, c ssa.CallInstruction, tr *TypeRole) map[ssa.Value]bool {
-	carriers := map[ssa.Value]bool{}
-	var stores []ssa.Instruction
-	for _, ev := range errorResults(c) {
-		fl := p.flowForward(ev)
-		for v := range fl.Values {
-			carriers[v] = true
-		}
-		for _, st := range fl.Stores {
-			if _, sel := accessPath(st.Addr); sel != "" {
-				stores = append(stores, st)
-			}
-		}
-	}
-	type slot struct {
-		root ssa.Value
-		sel  string
-		from ssa.Instruction
-	}
-	var slots []slot
-	for _, st := range stores {
-		root, sel := accessPath(st.(*ssa.Store).Addr)
-		slots = append(slots, slot{root, sel, st})
-	}
-	if tr != nil && tr.Sticky != "" && len(fn.Params) > 0 {
-		if f := c.Common().StaticCallee(); f != nil && f.Signature.Recv() != nil && len(c.Common().Args) > 0 && c.Common().Args[0] == fn.Params[0] {
-			// a method of the same receiver: it records its failures in the sticky field (R14.1 on that method)
-			if derefNamed(f.Signature.Recv().Type()) == tr.Named {
-				slots = append(slots, slot{fn.Params[0], "." + tr.Sticky, c})
-			}
-		}
-	}
-	for _, s := range slots {
-		for _, b := range fn.Blocks {
-			for _, in := range b.Instrs {
-				ld, ok := in.(*ssa.UnOp)
-				if !ok || ld.Op != token.MUL {
-					continue
-				}
-				root, sel := accessPath(ld.X)
-				if root != s.root || sel != s.sel {
-					continue
-				}
-				// forwarded if the defining store/call dominates the load and no other writer of the slot lies between
-				if s.from != ssa.Instruction(c) {
-					// every path from the call to the load must pass through the store
-					avoid, _, _ := PathQuery{Start: c, Target: func(x ssa.Instruction) bool { return x == ssa.Instruction(ld) }, Barrier: func(x ssa.Instruction) bool { return x == s.from }}.Find(fn)
-					if avoid {
-						continue
-					}
-				}
-				other := func(x ssa.Instruction) bool {
-					if x == s.from {
-						return false
-					}
-					if st, ok := x.(*ssa.Store); ok {
-						r2, s2 := accessPath(st.Addr)
-						return r2 == s.root && s2 == s.sel
-					}
-					if cc, ok := x.(ssa.CallInstruction); ok && tr != nil {
-						if f := cc.Common().StaticCallee(); f != nil && f.Signature.Recv() != nil && derefNamed(f.Signature.Recv().Type()) == tr.Named {
-							return true
-						}
-					}
-					return false
-				}
-				found, hit, _ := PathQuery{Start: s.from, Target: other, Barrier: func(x ssa.Instruction) bool { return x == ssa.Instruction(ld) }}.Find(fn)
-				if found {
-					// is the load reachable after that other writer?
-					f2, _, _ := PathQuery{Start: hit, Target: func(x ssa.Instruction) bool { return x == ssa.Instruction(ld) }}.Find(fn)
-					if f2 {
-						continue
-					}
-				}
-				carriers[ld] = true
-			}
-		}
-	}
-	return carriers
-}
-
 func ruleR14_4(p *Program, r *Report) {
 	r.Expect("R14.4", 20)
 	roleByType := map[*types.Named]*TypeRole{}
@@ -360,21 +276,7 @@ func ruleR14_4(p *Program, r *Report) {
 			if _, has := hasErrorResult(c); !has {
 				continue
 			}
-			carriers := p.errorCarriers(fn, c, tr)
-			edgeOK := func(from, to *ssa.BasicBlock) bool {
-				br, ok := edgeCond(from, to)
-				if !ok {
-					return true
-				}
-				f, ok := branchFact(br)
-				if !ok || f.Y == nil {
-					return true
-				}
-				if f.Op == token.EQL && ((carriers[f.X] && isNil(f.Y)) || (carriers[f.Y] && isNil(f.X))) {
-					return false // this edge asserts the error is nil: not a failure path
-				}
-				return true
-			}
+			t := NewErrTrack(p, fn, c, KindNonNil, tr)
 			target := func(in ssa.Instruction) bool {
 				cc, ok := in.(ssa.CallInstruction)
 				if !ok {
@@ -383,7 +285,7 @@ func ruleR14_4(p *Program, r *Report) {
 				d, _ := p.isDstCall(cc)
 				return d
 			}
-			found, hit, path := PathQuery{Start: c, Target: target, EdgeOK: edgeOK}.Find(fn)
+			found, hit, path := t.Find(target, nil)
 			desc := "after a failure of destination call (" + what + ") no further destination call is reachable"
 			if found {
 				r.Fail("R14.4", key, p.InstrPos(c), desc, "on the failure edges the destination call at "+p.InstrPos(hit)+" ("+calleeLabel(hit.(ssa.CallInstruction))+") is reachable via blocks "+fmtInts(path))
